@@ -25,6 +25,11 @@
       before slicing); [fix_custom] has only the first;
     - [txt_reg_table]: (offset, width, slices?) of the 16 registers.Read*
       functions in the order of ReadTXTRegisters; [read_reg_k fx d k] is the k-th.
+    - [mul_w w a b] := (a * b) mod 2^w, the product as a [w]-bit unsigned
+      multiplication computes it; [acm_info_w pw] is ParseACMInfo with the
+      products [Count * entry size] of its two allocation guards computed in
+      [pw] bits, [acm_info] := [acm_info_w 64] the code as it is
+      ([uint64(Count)*uint64(binary.Size(T{})) > uint64(buf.Len())]);
     One model per decoder: parse_policy (tools.ParsePolicy), policy_data
     (ParsePolicyData), lookup_acm_size, acm_info (ACM.ParseACMInfo on the
     user area / serialised module), parse_txt_regs, parse_bios_data,
@@ -125,11 +130,34 @@ Theorem C15_ACMInfo_total : forall fx total user, value_or_error (run (acm_info 
 Proof. exact P_acm_info_total. Qed.
 Print Assumptions C15_ACMInfo_total.
 
-(** allocation in proportion to the module: at most 5 x module size + 256 KiB *)
+(** allocation in proportion to the module: at most 5 x module size + 256 KiB
+    (the guards multiply in uint64: [acm_info] = [acm_info_w 64]) *)
 Theorem C15_ACMInfo_alloc : forall total user,
   res_alloc (run (acm_info faithful total) user) <= 5 * Z.max (lenZ user) (lenZ total) + 262140.
 Proof. exact P_acm_info_alloc. Qed.
 Print Assumptions C15_ACMInfo_alloc.
+
+(** ... proved from the width of the guard products: it holds for every width
+    from 37 bits on (a 32-bit count times a 24-byte entry) ... *)
+Theorem C15_ACMInfo_alloc_any_wide_product : forall pw total user, 37 <= pw ->
+  res_alloc (run (acm_info_w pw faithful total) user) <= 5 * Z.max (lenZ user) (lenZ total) + 262140.
+Proof. exact P_acm_info_alloc_any_wide. Qed.
+Print Assumptions C15_ACMInfo_alloc_any_wide_product.
+
+(** ... and it does need it: with the same guards computed in 32 bits an 8-byte
+    module announcing 0x10000000 chipset IDs (16 * 0x10000000 = 0 mod 2^32), or a
+    16-byte module announcing 0x0AAAAAAB processor IDs (24 * 0x0AAAAAAB = 8 mod
+    2^32), gets past the guard and 8 GiB are requested; the code as it is
+    rejects both after allocating the module buffer only *)
+Theorem C15_ACMInfo_alloc_needs_wide_product :
+  (exists total user, lenZ total = 8 /\ lenZ user = 48 /\
+     8589934592 <= res_alloc (run (acm_info_w 32 faithful total) user) /\
+     outcome_of (run (acm_info faithful total) user) = Err E_FIX /\ res_alloc (run (acm_info faithful total) user) = 8) /\
+  (exists total user, lenZ total = 16 /\ lenZ user = 48 /\
+     8589934592 <= res_alloc (run (acm_info_w 32 faithful total) user) /\
+     outcome_of (run (acm_info faithful total) user) = Err E_FIX /\ res_alloc (run (acm_info faithful total) user) = 16).
+Proof. exact P_acm_info_alloc_needs_wide_product. Qed.
+Print Assumptions C15_ACMInfo_alloc_needs_wide_product.
 
 (** ... which is what repair 9c860bb added: without it Chipsets.Count = 0x08000000 requests 2 GiB, now 4 bytes *)
 Theorem C15_ACMInfo_alloc_needs_list_bound : exists total user, lenZ total = 4 /\ lenZ user = 48 /\
@@ -302,6 +330,10 @@ Example C15_ex_fixes : fx_custom_min faithful = true /\ fx_cap faithful = true /
   (exists v, outcome_of (run (policy_data faithful) custom_ok) = Ok v) /\
   res_alloc (run (policy_data faithful) custom_ok) = 88.
 Proof. exact ex_fixes. Qed.
+(** the products of the guards: exact in 64 bits, wrapped in 32 *)
+Example C15_ex_guard_products : acm_info = acm_info_w 64 /\
+  mul_w 32 268435456 16 = 0 /\ mul_w 32 178956971 24 = 8 /\ mul_w 64 268435456 16 = 4294967296.
+Proof. exact (conj eq_refl mul_w_wraps). Qed.
 Example C15_ex_readreg : nth_error txt_reg_table (Z.to_nat 4) = Some (1024, 32, true) /\
   nth_error txt_reg_table (Z.to_nat 0) = Some (888, 8, false) /\ nth_error txt_reg_table (Z.to_nat 16) = None.
 Proof. exact ex_readreg. Qed.
